@@ -181,25 +181,28 @@ def score_cover(fam, vecs_asg, per_score):
     return out
 
 
+def blocks(tier):
+    if tier == "thorough":
+        return spaces.v2_blocks("quick") + spaces.v3_blocks("quick") + \
+            spaces.v4_blocks("quick", "short") + spaces.v4_blocks("quick", "override", ("mid", "mid"))
+    return [
+        Block("v2.base_x_temporal", "2", spaces.v2_base_all(), spaces.ABSENT + spaces.v2_temporal_effective()),
+        Block("v2.env_free", "2", spaces.v2_base_skeleton(), spaces.v2_temporal_skeleton()[:3],
+              spaces.ABSENT + spaces.v2_env_effective()),
+        Block("v3.base_x_temporal", "3.0", spaces.v3_base_all(),
+              spaces.v3_temporal_skeleton(6) + spaces.v3_temporal_spellings()[::5], twin="3.1"),
+        Block("v3.override", "3.0", spaces.v3_modified_over_complementary_base(),
+              spaces.v3_temporal_skeleton(2), spaces.v3_req_all()[::3], twin="3.1"),
+    ] + spaces.v4_blocks("quick", "short", ("min", "mid")) + \
+        spaces.v4_blocks("quick", "override", ("min", "min"))[1:]
+
+
 def run(ctx, res):
     global _VECS, _TOKS
     # (1) round trip
-    if ctx.thorough:
-        blocks = spaces.v2_blocks("quick") + spaces.v3_blocks("quick") + \
-            spaces.v4_blocks("quick", "short") + spaces.v4_blocks("quick", "override", ("mid", "mid"))
-    else:
-        blocks = [
-            Block("v2.base_x_temporal", "2", spaces.v2_base_all(), spaces.ABSENT + spaces.v2_temporal_effective()),
-            Block("v2.env_free", "2", spaces.v2_base_skeleton(), spaces.v2_temporal_skeleton()[:3],
-                  spaces.ABSENT + spaces.v2_env_effective()),
-            Block("v3.0.base_x_temporal", "3.0", spaces.v3_base_all(), spaces.v3_temporal_skeleton(6)),
-            Block("v3.1.base_x_temporal_spellings", "3.1", spaces.v3_base_all(), spaces.v3_temporal_spellings()[::5]),
-            Block("v3.1.override", "3.1", spaces.v3_modified_over_complementary_base(),
-                  spaces.v3_temporal_skeleton(2), spaces.v3_req_all()[::2]),
-        ] + spaces.v4_blocks("quick", "short", ("min", "mid")) + \
-            spaces.v4_blocks("quick", "override", ("min", "min"))[1:]
-    tot = sweep.merge(product.run(ctx, blocks, visit, sweep.new_acc))
-    sweep.fill(res, ctx, tot, blocks,
+    blocks_ = blocks(ctx.tier)
+    tot = sweep.merge(product.run(ctx, blocks_, visit, sweep.new_acc))
+    sweep.fill(res, ctx, tot, blocks_,
                "(1) every point of the listed blocks: rh_vector() text == '%.1f'%base + '/' + "
                "clean_vector(), from_rh_vector(rh_vector()) == x with the same scores.",
                exhaustive=True)
@@ -279,6 +282,12 @@ def run(ctx, res):
     cov["bound"] = ("all v2/v3 base vectors x all 101 canonical scores; a v4 set covering every "
                     "reachable score x 101; odd/padded/non-numeric/fuzzy tokens x score-covering and "
                     "invalid vector parts")
+
+
+def replay_task(case):
+    if case["kind"] != "roundtrip":
+        return replay(case)
+    return product.replay_task(blocks(case.get("tier") or "quick"), visit, sweep.new_acc, case)
 
 
 def replay(case):
